@@ -210,6 +210,8 @@ def r13_8(ctx) -> None:
 
 
 def run(ctx) -> None:
+    from .common import forwarding_discipline
+    ctx.guard(forwarding_discipline, "R13.9", ['auto_kid', 'parameters'], 14)  # arguments are handed on under their own name (generic routing rule, rules/common.py)
     ctx.guard(r13_8)
     ctx.guard(r13_1)
     ctx.guard(r13_2)
